@@ -6,6 +6,7 @@
 
 mod gen;
 mod interp;
+mod net;
 mod sio;
 mod util;
 
@@ -15,11 +16,33 @@ use std::panic::{catch_unwind, AssertUnwindSafe};
 fn run(cases: &str, out: &str, start: usize) {
     let f = std::fs::File::open(cases).expect("cases file");
     let mut o = std::fs::OpenOptions::new().create(true).append(true).open(out).expect("out file");
+    // trust for the TLS scenarios is injected through SSL_CERT_FILE; it has to be in place before any TLS object exists
+    // (always our own file next to the output: an inherited SSL_CERT_FILE names the system bundle, which must neither
+    // be trusted by the scenarios nor ever be written to)
+    std::env::set_var("SSL_CERT_FILE", format!("{}.ca.pem", out));
+    std::env::set_var("VERIF_CA_FILE", format!("{}.ca.pem", out));
     let mut st = interp::State::new();
     // keep panic messages out of the way; the outcome class is what is recorded
     std::panic::set_hook(Box::new(|_| {}));
-    for (i, line) in std::io::BufReader::new(f).lines().enumerate() {
-        let line = line.unwrap();
+    let all: Vec<String> = std::io::BufReader::new(f).lines().map(|l| l.unwrap()).collect();
+    let is_net = |l: &str| l.starts_with("lsn ") || l.starts_with("tls ");
+    for (i, line) in all.iter().enumerate() {
+        let line = line.clone();
+        if i >= start && is_net(&line) {
+            if !st.net_cache.contains_key(&i) {
+                let batch: Vec<(usize, String)> = all.iter().enumerate().skip(i).filter(|(_, l)| is_net(l)).take(24).map(|(j, l)| (j, l.clone())).collect();
+                let r = catch_unwind(AssertUnwindSafe(|| st.run_net_batch(batch.clone())));
+                if r.is_err() {
+                    for (j, _) in &batch {
+                        st.net_cache.insert(*j, "panic".into());
+                    }
+                }
+            }
+            let mut buf = st.net_cache.remove(&i).unwrap_or_else(|| "missing".into()).into_bytes();
+            buf.push(b'\n');
+            o.write_all(&buf).unwrap();
+            continue;
+        }
         if line.starts_with('#') {
             if i >= start {
                 writeln!(o, "#").unwrap();
